@@ -38,12 +38,20 @@ fn scenarios(thorough: bool) -> Vec<(Scenario, Vec<i32>)> {
             ("req,cancel,probe", vec![req(k, 1), world::cancel(1), req(0, 3)], vec![1, 3]),
         ];
         for (shape, msgs, ids) in shapes {
-            let mut s = Scenario::new(&format!("{}:{shape}", KINDS[k]));
-            s.disk = vec![("a.lua".into(), DOC.into()), ("b.lua".into(), "local b = 1\n".into())];
-            s.pull_diagnostics = true;
-            s.messages.push(world::did_open("a.lua", DOC));
-            s.messages.extend(msgs);
-            out.push((s, ids));
+            // once with the server already initialised, once with the initialisation window still
+            // open (the real loop queues requests and handles cancels/responses immediately)
+            for init_window in [false, true] {
+                if init_window && k > 1 {
+                    continue;
+                }
+                let mut s = Scenario::new(&format!("{}:{shape}{}", KINDS[k], if init_window { ":during-init" } else { "" }));
+                s.disk = vec![("a.lua".into(), DOC.into()), ("b.lua".into(), "local b = 1\n".into())];
+                s.pull_diagnostics = true;
+                s.init_as_event = init_window;
+                s.messages.push(world::did_open("a.lua", DOC));
+                s.messages.extend(msgs.clone());
+                out.push((s, ids.clone()));
+            }
         }
     }
     out
